@@ -311,11 +311,23 @@ where
             burn::tensor::Distribution::Normal(0., 1.),
             &B::Device::default(),
         );
+        #[cfg(feature = "verif")]
+        let momentum_0 = match crate::verif::hmc_take_momenta() {
+            Some(p) => Tensor::<B, 2>::from_data(
+                TensorData::new(p, [n_chains, dim]),
+                &B::Device::default(),
+            ),
+            None => momentum_0,
+        };
+        #[cfg(feature = "verif")]
+        let verif_momentum_0 = momentum_0.clone();
 
         // Current log probability: shape [n_chains]
         // Detach pos to ensure it's AD-enabled for the gradient computation.
         let pos = self.positions.clone().detach().require_grad();
         let logp_current = self.target.unnorm_logp_batch(pos.clone());
+        #[cfg(feature = "verif")]
+        let verif_logp_current = logp_current.clone().detach();
 
         // Compute gradient of log probability with respect to pos.
         // First gradient step in leapfrog needs it.
@@ -338,6 +350,9 @@ where
         // 2) Run the leapfrog integrator.
         let (proposed_positions, proposed_momenta, logp_proposed) =
             self.leapfrog(self.positions.clone(), momentum_0);
+        #[cfg(feature = "verif")]
+        let (verif_proposed_momenta, verif_logp_proposed) =
+            (proposed_momenta.clone(), logp_proposed.clone());
 
         // Compute proposed kinetic energy.
         let ke_proposed = proposed_momenta
@@ -361,6 +376,27 @@ where
             burn::tensor::Distribution::Default,
             &B::Device::default(),
         );
+        #[cfg(feature = "verif")]
+        let uniform = match crate::verif::hmc_take_uniforms() {
+            Some(u) => {
+                Tensor::<B, 1>::from_data(TensorData::new(u, [n_chains]), &B::Device::default())
+            }
+            None => uniform,
+        };
+        #[cfg(feature = "verif")]
+        if crate::verif::hmc_trace_enabled() {
+            crate::verif::hmc_trace_push(crate::verif::HmcStepRecord {
+                n_chains,
+                dim,
+                positions_before: crate::verif::tensor_to_f64(&self.positions),
+                momenta: crate::verif::tensor_to_f64(&verif_momentum_0),
+                uniforms: crate::verif::tensor_to_f64(&uniform),
+                logp_current: crate::verif::tensor_to_f64(&verif_logp_current),
+                logp_proposed: crate::verif::tensor_to_f64(&verif_logp_proposed),
+                proposed_positions: crate::verif::tensor_to_f64(&proposed_positions),
+                proposed_momenta: crate::verif::tensor_to_f64(&verif_proposed_momenta),
+            });
+        }
 
         // Accept the proposal if accept_logp >= ln(u).
         let ln_u = uniform.log(); // shape [n_chains]
